@@ -32,3 +32,11 @@ Lemma pruned_read_top : forall (A : Type) (d : A) (miss : option A) (st : store 
   get_array_index d miss (fst (put_array st arr dt f chunks [])) arr dt chunks index
     = (spec_requested chunks index, Ok (map f (spec_index_points chunks index))).
 Proof. intros. apply pruned_read; auto. apply name_inj_arr. Qed.
+
+Lemma pruned_read_all_top : forall (A : Type) (d : A) (miss : option A) (st : store A) (arr : str) (dt : Z)
+    (f : list Z -> A) (chunks : list (list Z)) (index : list (option Z * option Z)),
+  Forall (fun cs => cs <> [] /\ Forall (fun c => 0 < c) cs) chunks ->
+  let r := get_array_index d miss (fst (put_array st arr dt f chunks [])) arr dt chunks index in
+  snd r = Ok (map f (spec_index_points chunks index))
+  /\ forall b, In b (fst r) -> In b (blocks chunks).
+Proof. intros. apply pruned_read_all; auto. apply name_inj_arr. Qed.
